@@ -14,13 +14,6 @@ def hexOfText (s : String) : String :=
   let bs := s.toUTF8.toList.map (·.toNat)
   if bs.isEmpty then "-" else hexOfBytes bs
 
-/-- split a file's text into `readlines()` lines (each with its trailing newline) -/
-def readLines (cs : List Char) : List (List Char) :=
-  let rec go : List Char → List Char → List (List Char) → List (List Char)
-    | [], cur, acc => (if cur.isEmpty then acc else cur.reverse :: acc).reverse
-    | c :: rest, cur, acc => if c == '\n' then go rest [] ((c :: cur).reverse :: acc) else go rest (c :: cur) acc
-  go cs [] []
-
 def parseSpecTable (s : String) : Option (List Spec.Table.Line) :=
   if s == "-" then some [] else
   (s.splitOn ";").mapM fun item =>
